@@ -1,2 +1,35 @@
-(** C20 - placeholder *)
-From VG Require Import Model.Serve.
+(** C20 - Behaviour depends on the schema's content, not on how it was loaded.
+    Statements only; proofs in Proofs/ResolverProofs.v.
+
+    How a schema was loaded is not something a model of the transcoder's logic distinguishes: every
+    model function takes the schema's content (methods, bindings, fields) as data.  What the
+    property adds on the code's side is the type-resolution fallback; that is modelled and proved.
+    The equality of behaviour across loading routes itself is checked by running the scenario
+    corpus of the other properties under three registrations of the same schema (generated code;
+    fresh descriptors; fresh descriptors with dynamically typed options and a resolver that knows
+    nothing) and requiring identical observations. *)
+From VG Require Import Model.Bytes Model.Resolver.
+From VG Require Import Proofs.ResolverProofs.
+Open Scope Z_scope.
+
+(** The first resolver that knows a type supplies it, whatever the earlier ones answered. *)
+Theorem C20_first_that_knows_wins : forall pre a post,
+  Forall (fun x => x <> 0) pre -> a = 0 -> fallback (pre ++ a :: post) = RFound (Z.of_nat (length pre)).
+Proof. exact first_that_knows_wins. Qed.
+Print Assumptions C20_first_that_knows_wins.
+
+(** If none knows it, the answer is the last resolver's (not found, or its error). *)
+Theorem C20_nobody_knows : forall answers,
+  Forall (fun x => x <> 0) answers ->
+  fallback answers = match answers with [] => RNotFound | _ => answer (List.last answers 1) (Z.of_nat (length answers) - 1) end.
+Proof. exact nobody_knows. Qed.
+Print Assumptions C20_nobody_knows.
+
+(** A method whose types no resolver knows is served with dynamic messages instead of failing. *)
+Theorem C20_unknown_type_becomes_dynamic : forall answers,
+  Forall (fun x => x = 1) answers -> resolve_for_method (fallback answers) = TDynamic.
+Proof. exact unknown_type_becomes_dynamic. Qed.
+Print Assumptions C20_unknown_type_becomes_dynamic.
+
+Example C20_ex : fallback [1; 2; 0; 0] = RFound 2 /\ fallback [1; 2] = RErr 1 /\ fallback [2; 1] = RNotFound /\ fallback [] = RNotFound.
+Proof. repeat split; reflexivity. Qed.
